@@ -18,14 +18,14 @@ import (
 // linearizable, under partitions, resets, stepdowns, crashes.
 
 type c02Op struct {
-	Kind   string  `json:"k"` // w r partition isolate heal crash restart stepdown run
-	Client int     `json:"c,omitempty"`
-	Node   int     `json:"n,omitempty"`
-	Key    int     `json:"key,omitempty"`
-	Level  string  `json:"lvl,omitempty"`
-	Group  []int   `json:"g,omitempty"` // one side of a partition
-	Gap    int     `json:"gap,omitempty"`
-	Ms     int     `json:"ms,omitempty"`
+	Kind   string `json:"k"` // w r partition isolate heal crash restart stepdown run
+	Client int    `json:"c,omitempty"`
+	Node   int    `json:"n,omitempty"`
+	Key    int    `json:"key,omitempty"`
+	Level  string `json:"lvl,omitempty"`
+	Group  []int  `json:"g,omitempty"` // one side of a partition
+	Gap    int    `json:"gap,omitempty"`
+	Ms     int    `json:"ms,omitempty"`
 }
 
 type c02Scenario struct {
@@ -73,6 +73,8 @@ func c02Gen(r *core.Rand, tier string) any {
 	for i := 0; i < nops; i++ {
 		x := r.Intn(100)
 		switch {
+		case len(sc.Ops) == 0:
+			sc.Ops = append(sc.Ops, c02Op{Kind: "w", Client: 0, Node: 1 + r.Intn(sc.Nodes), Key: 0})
 		case x < 38:
 			sc.Ops = append(sc.Ops, c02Op{Kind: "w", Client: r.Intn(sc.Clients), Node: 1 + r.Intn(sc.Nodes), Key: r.Intn(sc.Keys), Gap: r.Intn(12)})
 		case x < 76:
@@ -128,6 +130,11 @@ func c02Gen(r *core.Rand, tier string) any {
 			}
 		default:
 			sc.Ops = append(sc.Ops, c02Op{Kind: "run", Ms: r.Range(50, 3000)})
+		}
+		// after a fault, often let simulated time pass so that elections and
+		// lease expiry actually happen while clients keep going
+		if k := sc.Ops[len(sc.Ops)-1].Kind; k != "w" && k != "r" && k != "run" && r.Bool(0.6) {
+			sc.Ops = append(sc.Ops, c02Op{Kind: "run", Ms: r.Range(200, 2500)})
 		}
 	}
 	return sc
